@@ -116,7 +116,7 @@ Proof.
   intros G Hc Hv Ha c. pose proof (run_check_model h0 bl steps [] G Hc Hv Ha) as Hs. unfold check_case_C06. fold c in Hs.
   destruct (run_check c) as [x last]. cbn [fst] in Hs.
   destruct Hs as (X1 & X2 & X3 & X4 & X5 & X6 & X7). rewrite X1, X6.
-  assert (c_fair c = []) as -> by reflexivity. unfold fair_ref_ok. cbn [forallb negb andb Z.ltb Z.leb Z.compare].
+  assert (c_fair c = []) as -> by reflexivity. unfold fair_ref_ok, fair_ref_share_ok. cbn [forallb negb andb Z.ltb Z.leb Z.compare].
   destruct (fair_ok (fair_close last (a_sh x))); [left|right]; reflexivity.
 Qed.
 
